@@ -260,6 +260,10 @@ fn run_set(ctx: &Ctx, gf: &Gf, seed: u64, idx: u64, st: &Stats) {
     let ids: Vec<(u8, u32)> = base.iter().copied().filter(|p| p.0 as usize == z).collect();
     if !ids.is_empty() {
         let mut order = ids.clone();
+        // duplicates inside the batches as well (a batch may end with a re-delivery)
+        for _ in 0..rng.below(1 + ids.len() as u64 / 2) {
+            order.push(*rng.pick(&ids));
+        }
         rng.shuffle(&mut order);
         let r = guarded(|| {
             let pk: Vec<EncodingPacket> = packets_for(&enc, &ks, &order);
